@@ -1135,7 +1135,8 @@ class Tifa(TifaCore, ast.NodeVisitor):
     def visit_Tuple(self, node) -> TupleType:
         # Fun fact, it's impossible to make a literal empty set
         if not node.elts:
-            return TupleType(True)
+            # TupleType takes its element types (unlike ListType(is_empty))
+            return TupleType([])
 
         # All literal keys
         return TupleType([self.visit(v) for v in node.elts])
